@@ -20,7 +20,7 @@ L1_TEXTS = (list(T.NAMED) + list(T.FORMULA) + list(T.GLYCAN) + list(T.SHIFTS) + 
             list(T.DECORATED) + T.ZERO_MASS + T.NO_MASS + ['R:AA0037', 'G:G59626AS', 'Cation:Fe[III]',
                                                             'N6,N6-dimethyl-L-lysine', 'Hex(1)HexNAc(1)',
                                                             '[3-(2,5)-dioxopyrrolidin-1-yloxycarbonyl)-propyl]dimethyloctylammonium',
-                                                            'Formula:[13C2][15N]H6[2H2]'])
+                                                            'Formula:[13C2][15N]H6[2H2]', '12345678901234567890.5', '1E3', '-2.5e-7'])
 L2_TEXTS = ['Oxidation', '15.995', 'UNIMOD:35', 'Label:13C(6)', 'Formula:[13C2][12C-2]H2N', 'Xlink:DTSSP[88]',
             '-18.0106', 'Oxidation|INFO:note']
 L3_TEXTS = ['Oxidation', '1.5', 'Formula:[13C2][12C-2]H2N', 'U:+15.995']
